@@ -428,4 +428,84 @@ def sumTo [Add K] [NatCast K] : Nat → (Nat → K) → K
 
 end
 
+/-! ## The caller's output containers of `DynamicMatrixHelp::eigenValuesNonSym`
+
+`eigenValues` is a `DynamicVector<C>` and `eigenVectors` a `std::vector<DynamicVector<K>>` that the caller owns; they
+arrive in an arbitrary state (empty, left over from a previous call with a matrix of another size, pre-sized by the
+caller) and the routine has to turn them into exactly `N` values and `N` vectors of `N` entries:
+
+    eigenValues.resize(N);  for i < N: eigenValues[i] = (eigenR[i], eigenI[i]);
+    eigenVectors->resize(N);
+    for i < N: { auto& v = (*eigenVectors)[i];  v.resize(N);  std::copy(vr + N*i, vr + N*(i+1), &v[0]); }
+
+`Option.none` stands for an access outside the container (undefined behaviour in the C++ code). -/
+section
+variable {α C K : Type}
+
+/-- `std::vector<T>::resize(n, c)` and `DynamicVector<K>::resize(n, c)`: the first `min(size, n)` elements are kept,
+`c` is used for appended elements only -/
+def vresize (n : Nat) (c : α) (l : List α) : List α := l.take n ++ List.replicate (n - l.length) c
+
+/-- `for (i = 0; i < n; ++i) v[i] = f(i)` resp. `std::copy(src, src + n, &v[0])` on a container that is not resized by
+the statement: entries from `n` on are kept, a container shorter than `n` is written past its end -/
+def storePrefix (n : Nat) (f : Nat → α) (l : List α) : Option (List α) :=
+  if n ≤ l.length then some ((List.range n).map f ++ l.drop n) else none
+
+/-- the loop over the eigenvector list, `fuel` iterations starting at index `i` -/
+def nsVecLoop (n : Nat) (vr : Nat → K) (zero : K) : Nat → Nat → List (List K) → Option (List (List K))
+  | 0, _, acc => some acc
+  | fuel + 1, i, acc =>
+    match acc[i]? with
+    | none => none
+    | some v =>
+      match storePrefix n (fun j => vr (n * i + j)) (vresize n zero v) with
+      | none => none
+      | some v' => nsVecLoop n vr zero fuel (i + 1) (acc.set i v')
+
+/-- the eigenvector part: outer `resize(N)` (appended vectors are empty), then the loop -/
+def nsStoreVectors (n : Nat) (vr : Nat → K) (zero : K) (pre : List (List K)) : Option (List (List K)) :=
+  nsVecLoop n vr zero n 0 (vresize n [] pre)
+
+/-- the two output containers -/
+structure NsOut (C K : Type) where
+  vals : List C
+  vecs : List (List K)
+deriving DecidableEq, Repr
+
+/-- one call: order `n`, whether the caller passed an eigenvector list, and what LAPACK delivered
+(`w i` = i-th eigenvalue, `vr` = the flat column-major array of right eigenvectors) -/
+structure NsCall (C K : Type) where
+  n : Nat
+  wantVec : Bool
+  w : Nat → C
+  vr : Nat → K
+
+/-- effect of one call on the caller's containers -/
+def nsStep (zc : C) (zk : K) (st : NsOut C K) (c : NsCall C K) : Option (NsOut C K) :=
+  match storePrefix c.n c.w (vresize c.n zc st.vals) with
+  | none => none
+  | some vals =>
+    if c.wantVec then
+      match nsStoreVectors c.n c.vr zk st.vecs with
+      | none => none
+      | some vs => some ⟨vals, vs⟩
+    else some ⟨vals, st.vecs⟩
+
+/-- a history of calls that reuse the same two containers -/
+def nsRun (zc : C) (zk : K) : NsOut C K → List (NsCall C K) → Option (NsOut C K)
+  | st, [] => some st
+  | st, c :: cs =>
+    match nsStep zc zk st c with
+    | none => none
+    | some st' => nsRun zc zk st' cs
+
+/-- what a call with fresh (empty) containers returns: `n` values -/
+def nsFreshVals (c : NsCall C K) : List C := (List.range c.n).map c.w
+
+/-- … and `n` vectors with `n` entries, vector `i` = column `i` of the Fortran array -/
+def nsFreshVecs (c : NsCall C K) : List (List K) :=
+  (List.range c.n).map fun i => (List.range c.n).map fun j => c.vr (c.n * i + j)
+
+end
+
 end DV.C08
